@@ -532,8 +532,17 @@ func emitRun(r *rec.Recorder, run *macatRun, o *macatObs) {
 			allempty = false
 		}
 	}
+	// the peer got connected too late for the count to mean anything: macat binds and the peer's connection was not
+	// attached well within the send delay (or never), or there is no delay at all on a bound socket
+	late := false
+	for _, t := range run.toks {
+		if t.O == "bind" && t.V == "ok" {
+			late = o.connAt == 0 || o.connAt > 250*time.Millisecond
+		}
+	}
 	r.Emit("mrun", "toks", run.toks, "code", o.code, "nsent", len(o.got), "alleq", alleq, "allempty", allempty, "nreq", o.nreq,
-		"outlen", len(o.stdout), "datalen", len(run.data), "ms", int(o.elapsed/time.Millisecond), "killat", run.killAt, "dataempty", firstEmpty)
+		"outlen", len(o.stdout), "datalen", len(run.data), "ms", int(o.elapsed/time.Millisecond), "killat", run.killAt, "dataempty", firstEmpty,
+		"late", late, "connms", int(o.connAt/time.Millisecond))
 }
 
 // --- command lines -------------------------------------------------------------
@@ -546,6 +555,16 @@ func TestMacatArgs(t *testing.T) {
 	rng := rand.New(rand.NewSource(seed()))
 	var runs []macatScn
 	add := func(label string, toks []mtok, capT time.Duration) {
+		// a macat that binds and has something to send starts sending 20 ms after it was started, whoever is connected
+		// by then; a send delay gives the harness peer time to connect on a busy machine
+		if label != "seq" && label != "fault" && hasData(toks) {
+			for _, t := range toks {
+				if t.O == "bind" && t.V == "ok" {
+					toks = append(append([]mtok{}, toks...), tk("delay", "ok", 400))
+					break
+				}
+			}
+		}
 		data := []byte(fmt.Sprintf("d%x", rng.Intn(1<<20)))
 		runs = append(runs, macatScn{label: fmt.Sprintf("args-%d-%s", len(runs), label),
 			run:  macatRun{toks: toks, data: data, capT: capT, killAt: 6, variant: rng.Intn(12), reqs: 2, await: hasData(toks)},
